@@ -8,13 +8,17 @@ that invariant, which is what makes half-close work.
 
 What is a theorem here and what is not: ordering (EOF after data, nothing after EOF, shutdown
 only after the socket wrapper shut), accounting and the conditions under which handlers are
-dropped are theorems for all schedules.  "No stuck state" has two theorem-level parts: a world
-at rest is complete (`C02_quiet_complete`), and no wake-up is lost at the level of one handler —
-whatever the handler registers for with the select loop, the callback it then gets makes
-measurable progress (`C02_wakeup_send/_read/_deliver`), and a handler that registers for nothing
-has nothing it could do (`C02_nothing_wanted_nothing_possible`).  "Within bounded work" for a whole
-run is a liveness claim about the real select loop; it is decided on the real classes by the
-real-loop drain oracle of `harness/props/c02.py`, not by a theorem (see DESIGN.md).
+dropped are theorems for all schedules.  "No stuck state … within bounded work" is a theorem about
+the modelled loop in four parts: a world at rest is complete (`C02_quiet_complete`); no wake-up is
+lost at the level of one handler (`C02_wakeup_send/_read/_deliver`,
+`C02_nothing_wanted_nothing_possible`, `C02_unquiet_handler_is_woken`); every move of the loop that
+changes anything lowers a finite measure (`C02_bounded_work`); and the scheduler itself
+(`Code/Loop.lean`, one `runonce` pass with the model choosing the callbacks from what the handlers
+asked for and what `select` reports): a pass that does not lower the measure leaves its end quiet
+(`C02_pass_without_progress_is_quiet`).  Outside the theorems: that the operating system's `select`
+answers truthfully, and the tie of `World.round` to the real `ssnet.runonce`, which is the
+correspondence check of `harness/props/c02.py` (every real pass is compared with the model's pass;
+see DESIGN.md).
 -/
 import SshuttleModel.Props.C01
 import SshuttleModel.Lemmas.SockInv
@@ -1361,6 +1365,34 @@ theorem mem_zip_range {α : Type} (l : List α) (i : Nat) (a : α) (h : l[i]? = 
   rw [List.getElem?_zip_eq_some]
   exact ⟨by rw [List.getElem?_range hlt], h⟩
 
+/-- A pass that does not lower the measure found no frame on its way to its end (no hypothesis on
+the handlers or on latency control). -/
+theorem pass_idle_queue_empty (w : World) (e : End) (k : Nat) (hd : w.died = none)
+    (hk : w.inQueue e ≠ [] → 0 < k)
+    (hfix : worldMu (w.roundAuto e k fullIo) = worldMu w) : w.inQueue e = [] := by
+  have hmv : ∀ st ∈ roundHead e w.flows.length ++
+      roundTail (w.run (roundHead e w.flows.length)) e k .ok (w.truthfulSel e) (fun _ => fullIo),
+      LoopMove st := by
+    intro st h
+    rcases List.mem_append.mp h with h | h
+    · exact roundHead_moves _ _ st h
+    · exact roundTail_moves _ _ _ _ _ _ st h
+  have hrun : w.roundAuto e k fullIo = w.run (roundHead e w.flows.length ++
+      roundTail (w.run (roundHead e w.flows.length)) e k .ok (w.truthfulSel e) (fun _ => fullIo)) := by
+    simp only [World.roundAuto, World.round, run_append, fullIo]
+  rw [hrun] at hfix
+  have hall := run_fix_all w _ hmv hfix
+  have hw2 : w.run (roundHead e w.flows.length) = w :=
+    run_of_fix w _ (fun st hst => hall st (List.mem_append_left _ hst))
+  rw [hw2] at hall
+  apply Classical.byContradiction
+  intro hne
+  have hk' := hk hne
+  have hmem : Step.deliver e .ok ∈ roundTail w e k .ok (w.truthfulSel e) (fun _ => fullIo) := by
+    unfold roundTail
+    exact List.mem_append_left _ (List.mem_replicate.mpr ⟨by omega, rfl⟩)
+  exact hne (deliver_fix_empty w e hd (hall _ (List.mem_append_right _ hmem)))
+
 /-- **The scheduler loses no wake-up: a pass of the select loop that does not lower the measure
 leaves nothing to do at its end.**  Take any alive world whose handlers at end `e` have had their
 callbacks (`Noticed` — what every callback establishes, `cb_noticed`) with the tunnel not paused, and
@@ -1462,6 +1494,98 @@ theorem C02_both_passes_idle_is_quiet (w : World) (kc ks : Nat) (hd : w.died = n
   exact ⟨q2, q1, fun f hf => ⟨h1 f hf, h2 f hf⟩⟩
 
 
+/-! ### Whole runs of the select loop, pass by pass -/
+
+/-- A sequence of passes of the loop in the environment as it is, each at an end of the
+scheduler's choice (`e`) with `k` frames arriving. -/
+def World.passes (w : World) : List (End × Nat) → World
+  | [] => w
+  | (e, k) :: rest => (w.roundAuto e k fullIo).passes rest
+
+/-- Every pass of the list lowers the measure. -/
+def EffectivePasses : World → List (End × Nat) → Prop
+  | _, [] => True
+  | w, (e, k) :: rest =>
+    worldMu (w.roundAuto e k fullIo) < worldMu w ∧ EffectivePasses (w.roundAuto e k fullIo) rest
+
+theorem loopMove_good {st : Step} (h : LoopMove st) : GoodStep st := by
+  cases st <;> first | trivial | cases h
+
+theorem passes_is_run (w : World) (ps : List (End × Nat)) :
+    ∃ steps, (∀ st ∈ steps, LoopMove st) ∧ w.passes ps = w.run steps := by
+  induction ps generalizing w with
+  | nil => exact ⟨[], fun _ h => (by cases h), rfl⟩
+  | cons a rest ih =>
+    obtain ⟨e, k⟩ := a
+    obtain ⟨s1, h1, r1, _⟩ := C02_round_is_run w e k fullIo.conn (w.truthfulSel e) (fun _ => fullIo)
+    obtain ⟨s2, h2, r2⟩ := ih (w.roundAuto e k fullIo)
+    refine ⟨s1 ++ s2, ?_, ?_⟩
+    · intro st h
+      rcases List.mem_append.mp h with h | h
+      · exact h1 st h
+      · exact h2 st h
+    · show (w.roundAuto e k fullIo).passes rest = _
+      rw [r2]
+      show (w.round e k fullIo.conn (w.truthfulSel e) (fun _ => fullIo)).run s2 = _
+      rw [r1, run_append]
+
+/-- **Bounded work, counted in passes of the loop:** from ANY world, a sequence of passes each of
+which lowers the measure is at most `worldMu w` long. -/
+theorem C02_effective_passes_bounded (w : World) (ps : List (End × Nat)) (h : EffectivePasses w ps) :
+    ps.length ≤ worldMu w := by
+  induction ps generalizing w with
+  | nil => exact Nat.zero_le _
+  | cons a rest ih =>
+    obtain ⟨e, k⟩ := a
+    obtain ⟨hlt, hrest⟩ := h
+    have := ih _ hrest
+    simp only [List.length_cons]
+    omega
+
+/-- **The select loop reaches a complete state within bounded work.**  Start from any reachable
+world (`pre`: any history — connections opened, data written, closes, faults, latency control).
+Let the loop then make passes, at either end in any order, for as long as a pass lowers the
+measure: that is at most `worldMu` passes (of the world it started from).  When a pass at each end
+no longer lowers it — the handlers having had their callbacks — every endpoint still open has
+received exactly what the tunnel read from its peer, every close has reached the other endpoint's
+socket, and flows closed on both sides are completely shut and unregistered.  (Property C02, last
+sentence; C01, last sentence.) -/
+theorem C02_loop_completes (w0 : World) (h0 : Fresh w0)
+    (hf : w0.cm.tooFull = false ∧ w0.sm.tooFull = false) (pre : List Step)
+    (hg : ∀ st ∈ pre, GoodStep st) (ps : List (End × Nat))
+    (heff : EffectivePasses (w0.run pre) ps)
+    (hn : (chans ((w0.run pre).passes ps)).Nodup)
+    (hd : ((w0.run pre).passes ps).died = none)
+    (hnot : ∀ f ∈ ((w0.run pre).passes ps).flows, ∀ e p, handlerAt e f = some p → Noticed p)
+    (kc ks : Nat)
+    (hkc : ((w0.run pre).passes ps).sm.out ≠ [] → 0 < kc)
+    (hks : ((w0.run pre).passes ps).cm.out ≠ [] → 0 < ks)
+    (hc : worldMu (((w0.run pre).passes ps).roundAuto .client kc fullIo) = worldMu ((w0.run pre).passes ps))
+    (hs : worldMu (((w0.run pre).passes ps).roundAuto .server ks fullIo) = worldMu ((w0.run pre).passes ps)) :
+    ps.length ≤ worldMu (w0.run pre) ∧
+    ∀ f ∈ ((w0.run pre).passes ps).flows,
+      (f.dst.sawShut = false → f.app.consumed = f.dst.delivered) ∧
+      (f.app.sawShut = false → f.dst.consumed = f.app.delivered) ∧
+      (f.app.eofIn = true → f.app.pending = [] → f.dst.sawShut = true) ∧
+      (f.dst.eofIn = true → f.dst.pending = [] → f.app.sawShut = true) := by
+  refine ⟨C02_effective_passes_bounded _ ps heff, ?_⟩
+  obtain ⟨steps, hmv, hrun⟩ := passes_is_run (w0.run pre) ps
+  have hrun' : (w0.run pre).passes ps = w0.run (pre ++ steps) := by rw [hrun, run_append]
+  rw [hrun'] at hn hd hnot hkc hks hc hs ⊢
+  have hfs := reach_flowSock w0 h0.1 (pre ++ steps)
+  have hq1 := pass_idle_queue_empty (w0.run (pre ++ steps)) .client kc hd hkc hc
+  have hq2 := pass_idle_queue_empty (w0.run (pre ++ steps)) .server ks hd hks hs
+  have ht := C09_drained_not_full w0 hf (pre ++ steps) hq2 hq1
+  have hq := C02_both_passes_idle_is_quiet (w0.run (pre ++ steps)) kc ks hd hkc hks hfs hnot ht hc hs
+  have hgood : ∀ st ∈ pre ++ steps, GoodStep st := by
+    intro st h
+    rcases List.mem_append.mp h with h | h
+    · exact hg st h
+    · exact loopMove_good (hmv st h)
+  intro f hfm
+  obtain ⟨_, a, b, c, d, _⟩ := C02_quiet_complete w0 h0 (pre ++ steps) hgood hn hd hq f hfm
+  exact ⟨a, b, c, d⟩
+
 /-- The pass on concrete reachable worlds: in the state of `demo2` (bytes buffered at the server,
 an end-of-stream to pass on) the server's pass lowers the measure; at the end of `demo3` (a whole
 connection run to the end) one pass per end drops the finished handlers, and after that neither
@@ -1474,5 +1598,715 @@ example :
     worldMu (demo3Rest.roundAuto .client 0 fullIo) = worldMu demo3Rest ∧
     worldMu (demo3Rest.roundAuto .server 0 fullIo) = worldMu demo3Rest ∧ demo3Rest.died = none := by
   refine ⟨by decide +kernel, by decide +kernel, by decide +kernel, by decide +kernel, by decide +kernel⟩
+
+
+/-! ### Between passes every handler has had its callback
+
+`Noticed` — the hypothesis of `C02_pass_without_progress_is_quiet` — is an invariant of the select
+loop's own alphabet: a new connection, endpoint activity, `check_fullness`, traffic of other flow
+kinds, and whole passes (`World.round`, for ANY answer of `select` and any socket behaviour).  Inside
+a pass a frame that has just been handled (`got_packet`) or a handler that has just been created
+(`new_channel`) leaves its handler un-noticed only until that handler's callbacks later in the same
+pass: the tunnel's read file is in every handler's `socks`. -/
+
+/-- Position by position, `R` relates the flows of two lists of equal length. -/
+def FlowsR (R : Flow → Flow → Prop) (l l' : List Flow) : Prop :=
+  l'.length = l.length ∧ ∀ (j : Nat) (f f' : Flow), l[j]? = some f → l'[j]? = some f' → R f f'
+
+theorem flowsR_refl {R : Flow → Flow → Prop} (hr : ∀ f, R f f) (l : List Flow) : FlowsR R l l :=
+  ⟨rfl, fun j f f' h h' => by rw [h] at h'; injection h' with h'; subst h'; exact hr f⟩
+
+theorem flowsR_modifyAt {R : Flow → Flow → Prop} (hr : ∀ f, R f f) (l : List Flow) (i : Nat) (g : Flow → Flow)
+    (hg : ∀ f, l[i]? = some f → R f (g f)) : FlowsR R l (modifyAt l i g) := by
+  refine ⟨modifyAt_length l i g, ?_⟩
+  intro j f f' hj hj'
+  rw [modifyAt_getElem?] at hj'
+  by_cases hji : j = i
+  · subst hji
+    simp only [↓reduceIte, hj, Option.map_some, Option.some.injEq] at hj'
+    subst hj'
+    exact hg f hj
+  · rw [if_neg hji, hj] at hj'
+    injection hj' with hj'; subst hj'; exact hr f
+
+theorem flowsR_map {R : Flow → Flow → Prop} (l : List Flow) (g : Flow → Flow) (hg : ∀ f, R f (g f)) :
+    FlowsR R l (l.map g) := by
+  refine ⟨List.length_map g, ?_⟩
+  intro j f f' hj hj'
+  rw [List.getElem?_map, hj] at hj'
+  simp only [Option.map_some, Option.some.injEq] at hj'
+  subst hj'; exact hg f
+
+/-- The handler at end `e'` is the same. -/
+def SameAt (e' : End) (f f' : Flow) : Prop := handlerAt e' f' = handlerAt e' f
+
+theorem sameAt_refl (e' : End) : ∀ f, SameAt e' f f := fun _ => rfl
+
+/-- Every handler of end `e` in the list has had its callback. -/
+def AllNoticed (e : End) (l : List Flow) : Prop :=
+  ∀ f ∈ l, ∀ p, handlerAt e f = some p → Noticed p
+
+theorem AllNoticed.of_same {e : End} {l l' : List Flow} (h : FlowsR (SameAt e) l l') (ha : AllNoticed e l) :
+    AllNoticed e l' := by
+  intro f' hf' p hp
+  obtain ⟨j, hj⟩ := List.getElem?_of_mem hf'
+  have hlt : j < l.length := by
+    have := (List.getElem?_eq_some_iff.mp hj).1
+    rw [h.1] at this; exact this
+  have hjl : l[j]? = some l[j] := List.getElem?_eq_getElem hlt
+  have hs := h.2 j _ f' hjl hj
+  unfold SameAt at hs
+  rw [hs] at hp
+  exact ha _ (List.mem_of_getElem? hjl) p hp
+
+theorem dispatchAt_flowsR (w : World) (e e' : End) (fr : Frame) (hne : e' ≠ e) :
+    FlowsR (SameAt e') w.flows (w.dispatchAt e fr).flows := by
+  unfold World.dispatchAt
+  split
+  · exact flowsR_refl (sameAt_refl _) _
+  · simp only
+    rcases dispatch_spec e w.flows fr with ⟨_, h2⟩ | ⟨_, h2, _⟩ | ⟨_, i, f, p, w', _, _, _, _, _, h7⟩
+    · rw [h2]; exact flowsR_refl (sameAt_refl _) _
+    · rw [h2]; exact flowsR_refl (sameAt_refl _) _
+    · rw [h7]
+      apply flowsR_modifyAt (sameAt_refl _)
+      intro g _
+      unfold SameAt
+      cases e <;> cases e' <;> first | exact absurd rfl hne | rfl
+
+theorem connectS_flowsR (w : World) (fr : Frame) (conn : ConnRes) :
+    FlowsR (SameAt .client) w.flows (w.connectS fr conn).flows := by
+  unfold World.connectS
+  split
+  · exact flowsR_refl (sameAt_refl _) _
+  · split
+    · exact flowsR_refl (sameAt_refl _) _
+    · split
+      · exact flowsR_refl (sameAt_refl _) _
+      · split
+        · exact flowsR_refl (sameAt_refl _) _
+        · simp only
+          apply flowsR_modifyAt (sameAt_refl _)
+          intro g _
+          rfl
+
+/-- Whatever a step at end `e` does, the handlers of the other end stay as they are. -/
+theorem stepRaw_other_end (w : World) (e e' : End) (hne : e' ≠ e) (st : Step)
+    (hst : (∃ i io, st = .cb e i io) ∨ (∃ i, st = .pre e i) ∨ (∃ c, st = .deliver e c) ∨ st = .removeDead e) :
+    FlowsR (SameAt e') w.flows (w.stepRaw st).flows := by
+  rcases hst with ⟨i, io, rfl⟩ | ⟨i, rfl⟩ | ⟨c, rfl⟩ | rfl
+  · cases e
+    · simp only [World.stepRaw, World.cbC]
+      split
+      · split
+        · split
+          · apply flowsR_modifyAt (sameAt_refl _)
+            intro g _
+            cases e'
+            · exact absurd rfl hne
+            · rfl
+          · exact flowsR_refl (sameAt_refl _) _
+        · exact flowsR_refl (sameAt_refl _) _
+      · exact flowsR_refl (sameAt_refl _) _
+    · simp only [World.stepRaw, World.cbS]
+      split
+      · split
+        · split
+          · apply flowsR_modifyAt (sameAt_refl _)
+            intro g _
+            cases e'
+            · rfl
+            · exact absurd rfl hne
+          · exact flowsR_refl (sameAt_refl _) _
+        · exact flowsR_refl (sameAt_refl _) _
+      · exact flowsR_refl (sameAt_refl _) _
+  · cases e
+    · simp only [World.stepRaw, World.preC]
+      split
+      · split
+        · apply flowsR_modifyAt (sameAt_refl _)
+          intro g _
+          cases e'
+          · exact absurd rfl hne
+          · rfl
+        · exact flowsR_refl (sameAt_refl _) _
+      · exact flowsR_refl (sameAt_refl _) _
+    · simp only [World.stepRaw, World.preS]
+      split
+      · split
+        · apply flowsR_modifyAt (sameAt_refl _)
+          intro g _
+          cases e'
+          · rfl
+          · exact absurd rfl hne
+        · exact flowsR_refl (sameAt_refl _) _
+      · exact flowsR_refl (sameAt_refl _) _
+  · cases e
+    · simp only [World.stepRaw, World.deliverC]
+      split
+      · exact flowsR_refl (sameAt_refl _) _
+      · split
+        · exact flowsR_refl (sameAt_refl _) _
+        · split
+          · exact flowsR_refl (sameAt_refl _) _
+          · split
+            · split <;> exact flowsR_refl (sameAt_refl _) _
+            · split
+              · exact flowsR_refl (sameAt_refl _) _
+              · exact dispatchAt_flowsR _ .client e' _ hne
+    · simp only [World.stepRaw, World.deliverS]
+      split
+      · exact flowsR_refl (sameAt_refl _) _
+      · split
+        · exact flowsR_refl (sameAt_refl _) _
+        · split
+          · exact flowsR_refl (sameAt_refl _) _
+          · split
+            · cases e'
+              · exact connectS_flowsR _ _ _
+              · exact absurd rfl hne
+            · split
+              · exact flowsR_refl (sameAt_refl _) _
+              · exact dispatchAt_flowsR _ .server e' _ hne
+  · cases e
+    · simp only [World.stepRaw, World.rmC]
+      apply flowsR_map
+      intro f
+      unfold SameAt
+      cases e'
+      · exact absurd rfl hne
+      · split
+        · split <;> rfl
+        · rfl
+    · simp only [World.stepRaw, World.rmS]
+      apply flowsR_map
+      intro f
+      unfold SameAt
+      cases e'
+      · split
+        · split <;> rfl
+        · rfl
+      · exact absurd rfl hne
+
+theorem preSelect_id (p : ProxyS) (m : MuxL) (h : Settled p) : p.preSelectFlags m = (p, m) := by
+  obtain ⟨⟨sb, sr, sw, sc, sx⟩, ⟨wc, wb, wr, ww⟩, pok, sf⟩ := p
+  obtain ⟨h1, h2⟩ := h
+  simp only at h1 h2
+  cases sf <;> cases sw <;> cases ww <;> simp_all [ProxyS.preSelectFlags, MuxW.noread, SockW.noread]
+
+/-- What a step may do to the handler of end `e` without disturbing `AllNoticed`: keep it, drop it,
+leave one that is `Noticed`, or apply `pre_select`'s flag part to it. -/
+def NoticedStep (e : End) (f f' : Flow) : Prop :=
+  ∀ p', handlerAt e f' = some p' →
+    handlerAt e f = some p' ∨ Noticed p' ∨ ∃ p m, handlerAt e f = some p ∧ p' = (p.preSelectFlags m).1
+
+theorem noticedStep_refl (e : End) : ∀ f, NoticedStep e f f := fun _ _ h => Or.inl h
+
+theorem AllNoticed.of_step {e : End} {l l' : List Flow} (h : FlowsR (NoticedStep e) l l') (ha : AllNoticed e l) :
+    AllNoticed e l' := by
+  intro f' hf' p' hp'
+  obtain ⟨j, hj⟩ := List.getElem?_of_mem hf'
+  have hlt : j < l.length := by
+    have := (List.getElem?_eq_some_iff.mp hj).1
+    rw [h.1] at this; exact this
+  have hjl : l[j]? = some l[j] := List.getElem?_eq_getElem hlt
+  have hmem := List.mem_of_getElem? hjl
+  rcases h.2 j _ f' hjl hj p' hp' with h1 | h1 | ⟨p, m, h1, h2⟩
+  · exact ha _ hmem p' h1
+  · exact h1
+  · have hn := ha _ hmem p h1
+    rw [preSelect_id p m hn.1.1] at h2
+    rw [h2]; exact hn
+
+theorem rm_noticedStep (w : World) (e : End) : FlowsR (NoticedStep e) w.flows (w.stepRaw (.removeDead e)).flows := by
+  cases e
+  · simp only [World.stepRaw, World.rmC]
+    apply flowsR_map
+    intro f p' hp'
+    left
+    simp only [handlerAt] at hp' ⊢
+    split at hp'
+    · split at hp'
+      · exact hp'
+      · cases hp'
+    · exact hp'
+  · simp only [World.stepRaw, World.rmS]
+    apply flowsR_map
+    intro f p' hp'
+    left
+    simp only [handlerAt] at hp' ⊢
+    split at hp'
+    · split at hp'
+      · exact hp'
+      · cases hp'
+    · exact hp'
+
+theorem pre_noticedStep (w : World) (e : End) (i : Nat) :
+    FlowsR (NoticedStep e) w.flows (w.stepRaw (.pre e i)).flows := by
+  cases e
+  · simp only [World.stepRaw, World.preC]
+    split
+    next f hf =>
+      split
+      next p hp =>
+        apply flowsR_modifyAt (noticedStep_refl _)
+        intro g hg p' hp'
+        rw [hf] at hg; injection hg with hg; subst hg
+        right; right
+        simp only [handlerAt, Option.some.injEq] at hp'
+        exact ⟨p, w.cm, hp, hp'.symm⟩
+      · exact flowsR_refl (noticedStep_refl _) _
+    · exact flowsR_refl (noticedStep_refl _) _
+  · simp only [World.stepRaw, World.preS]
+    split
+    next f hf =>
+      split
+      next p hp =>
+        apply flowsR_modifyAt (noticedStep_refl _)
+        intro g hg p' hp'
+        rw [hf] at hg; injection hg with hg; subst hg
+        right; right
+        simp only [handlerAt, Option.some.injEq] at hp'
+        exact ⟨p, w.sm, hp, hp'.symm⟩
+      · exact flowsR_refl (noticedStep_refl _) _
+    · exact flowsR_refl (noticedStep_refl _) _
+
+theorem alive_of_run {w : World} {l : List Step} (h : (w.run l).died = none) : w.died = none := by
+  induction l generalizing w with
+  | nil => exact h
+  | cons a rest ih =>
+    have hrun : w.run (a :: rest) = (w.step a).run rest := by simp only [World.run, List.foldl_cons]
+    rw [hrun] at h
+    exact (step_died_none (ih h)).1
+
+/-- The steps a pass at end `e` is made of. -/
+def AtEnd (e : End) (st : Step) : Prop :=
+  (∃ i io, st = .cb e i io) ∨ (∃ i, st = .pre e i) ∨ (∃ c, st = .deliver e c) ∨ st = .removeDead e
+
+theorem run_other_end (e e' : End) (hne : e' ≠ e) (l : List Step) (w : World) (hl : ∀ st ∈ l, AtEnd e st)
+    (hd : (w.run l).died = none) :
+    FlowsR (SameAt e') w.flows (w.run l).flows := by
+  induction l generalizing w with
+  | nil => exact flowsR_refl (sameAt_refl _) _
+  | cons a rest ih =>
+    have hrun : w.run (a :: rest) = (w.step a).run rest := by simp only [World.run, List.foldl_cons]
+    rw [hrun] at hd ⊢
+    have h1 := alive_of_run hd
+    have h2 := (step_died_none h1).2
+    have hs := stepRaw_other_end w e e' hne a (hl a List.mem_cons_self)
+    rw [← h2] at hs
+    have hr := ih (w.step a) (fun s hs => hl s (List.mem_cons_of_mem _ hs)) hd
+    refine ⟨by rw [hr.1, hs.1], ?_⟩
+    intro j f f' hj hj'
+    have hlt : j < (w.step a).flows.length := by
+      rw [hs.1]; exact (List.getElem?_eq_some_iff.mp hj).1
+    have hm : (w.step a).flows[j]? = some (w.step a).flows[j] := List.getElem?_eq_getElem hlt
+    have a1 := hs.2 j f _ hj hm
+    have a2 := hr.2 j _ f' hm hj'
+    unfold SameAt at a1 a2 ⊢
+    rw [a2, a1]
+
+theorem roundHead_atEnd (e : End) (n : Nat) : ∀ st ∈ roundHead e n, AtEnd e st := by
+  intro st h
+  simp only [roundHead, List.mem_cons, List.mem_map, List.mem_range] at h
+  rcases h with rfl | ⟨i, _, rfl⟩
+  · exact Or.inr (Or.inr (Or.inr rfl))
+  · exact Or.inr (Or.inl ⟨i, rfl⟩)
+
+theorem roundTail_atEnd (w : World) (e : End) (k : Nat) (conn : ConnRes) (sel : Sel) (ios : Nat → CbIo) :
+    ∀ st ∈ roundTail w e k conn sel ios, AtEnd e st := by
+  intro st h
+  simp only [roundTail, List.mem_append, List.mem_replicate, List.mem_flatMap] at h
+  rcases h with ⟨_, rfl⟩ | ⟨⟨i, f⟩, _, _, rfl⟩
+  · exact Or.inr (Or.inr (Or.inl ⟨conn, rfl⟩))
+  · exact Or.inl ⟨i, ios i, rfl⟩
+
+theorem head_keeps_noticed (e : End) (n : Nat) (w : World) (hd : (w.run (roundHead e n)).died = none)
+    (ha : AllNoticed e w.flows) : AllNoticed e (w.run (roundHead e n)).flows := by
+  have key : ∀ (l : List Step) (w : World), (∀ st ∈ l, st = .removeDead e ∨ ∃ i, st = .pre e i) →
+      (w.run l).died = none → AllNoticed e w.flows → AllNoticed e (w.run l).flows := by
+    intro l
+    induction l with
+    | nil => intro w _ _ ha; exact ha
+    | cons a rest ih =>
+      intro w hl hd ha
+      have hrun : w.run (a :: rest) = (w.step a).run rest := by simp only [World.run, List.foldl_cons]
+      rw [hrun] at hd ⊢
+      have h2 := (step_died_none (alive_of_run hd)).2
+      apply ih (w.step a) (fun s hs => hl s (List.mem_cons_of_mem _ hs)) hd
+      rw [h2]
+      rcases hl a List.mem_cons_self with rfl | ⟨i, rfl⟩
+      · exact AllNoticed.of_step (rm_noticedStep w e) ha
+      · exact AllNoticed.of_step (pre_noticedStep w e i) ha
+  apply key _ w _ hd ha
+  intro st h
+  simp only [roundHead, List.mem_cons, List.mem_map, List.mem_range] at h
+  rcases h with rfl | ⟨i, _, rfl⟩
+  · exact Or.inl rfl
+  · exact Or.inr ⟨i, rfl⟩
+
+/-- While the callbacks of a pass are being made: every handler of the end has had its callback or
+still has one coming in this pass. -/
+def PendInv (e : End) (w : World) (rem : List Step) : Prop :=
+  ∀ (i : Nat) (f : Flow) (p : ProxyS), w.flows[i]? = some f → handlerAt e f = some p →
+    Noticed p ∨ ∃ io, Step.cb e i io ∈ rem
+
+theorem cb_handler_pre (w : World) (e : End) (i : Nat) (io : CbIo) (f : Flow) (p : ProxyS)
+    (hf : (w.stepRaw (.cb e i io)).flows[i]? = some f) (hp : handlerAt e f = some p) :
+    ∃ f0, w.flows[i]? = some f0 ∧ (handlerAt e f0).isSome := by
+  cases hw : w.flows[i]? with
+  | none =>
+    exfalso
+    cases e
+    · simp only [World.stepRaw, World.cbC, hw] at hf; cases hf
+    · simp only [World.stepRaw, World.cbS, hw] at hf; cases hf
+  | some f0 =>
+    refine ⟨f0, rfl, ?_⟩
+    cases hh : handlerAt e f0 with
+    | some q => rfl
+    | none =>
+      exfalso
+      cases e
+      · simp only [handlerAt] at hh
+        simp only [World.stepRaw, World.cbC, hw, hh] at hf
+        injection hf with hf; subst hf
+        simp only [handlerAt, hh] at hp; cases hp
+      · simp only [handlerAt] at hh
+        simp only [World.stepRaw, World.cbS, hw, hh] at hf
+        injection hf with hf; subst hf
+        simp only [handlerAt, hh] at hp; cases hp
+
+theorem pendInv_step (e : End) (w : World) (i : Nat) (io : CbIo) (rem : List Step)
+    (hd : (w.step (.cb e i io)).died = none) (h : PendInv e w (.cb e i io :: rem)) :
+    PendInv e (w.step (.cb e i io)) rem := by
+  obtain ⟨hd0, hs⟩ := step_died_none hd
+  rw [hs] at hd ⊢
+  intro j f p hf hp
+  by_cases hji : j = i
+  · subst hji
+    left
+    exact cb_noticed w e j io hd hd0 f p hf hp (cb_handler_pre w e j io f p hf hp)
+  · rw [(C08_step_frame w e i io).1 j hji] at hf
+    rcases h j f p hf hp with hn | ⟨io', hm⟩
+    · exact Or.inl hn
+    · right
+      rcases List.mem_cons.mp hm with heq | hm
+      · injection heq with _ h2 _; exact absurd h2 hji
+      · exact ⟨io', hm⟩
+
+theorem pendInv_run (e : End) (l : List Step) (w : World) (hl : ∀ st ∈ l, ∃ i io, st = Step.cb e i io)
+    (hd : (w.run l).died = none) (h : PendInv e w l) : AllNoticed e (w.run l).flows := by
+  induction l generalizing w with
+  | nil =>
+    intro f hf p hp
+    obtain ⟨j, hj⟩ := List.getElem?_of_mem hf
+    rcases h j f p hj hp with hn | ⟨_, hm⟩
+    · exact hn
+    · cases hm
+  | cons a rest ih =>
+    have hrun : w.run (a :: rest) = (w.step a).run rest := by simp only [World.run, List.foldl_cons]
+    rw [hrun] at hd ⊢
+    obtain ⟨i, io, rfl⟩ := hl a List.mem_cons_self
+    exact ih (w.step (.cb e i io)) (fun s hs => hl s (List.mem_cons_of_mem _ hs)) hd
+      (pendInv_step e w i io rest (alive_of_run hd) h)
+
+def otherEnd : End → End
+  | .client => .server
+  | .server => .client
+
+theorem otherEnd_ne (e : End) : otherEnd e ≠ e := by cases e <;> intro h <;> cases h
+
+/-- **A pass leaves every handler noticed**, whatever `select` reports and however the sockets
+answer: the handlers of the other end are not touched; a handler of this end that handled a frame
+or was created in this pass gets its callback later in the same pass. -/
+theorem round_keeps_noticed (w : World) (e : End) (k : Nat) (conn : ConnRes) (sel : Sel) (ios : Nat → CbIo)
+    (hd : (w.round e k conn sel ios).died = none)
+    (ha : ∀ e', AllNoticed e' w.flows) : ∀ e', AllNoticed e' (w.round e k conn sel ios).flows := by
+  have hround : w.round e k conn sel ios = w.run (roundHead e w.flows.length ++
+      roundTail (w.run (roundHead e w.flows.length)) e k conn sel ios) := by
+    simp only [World.round, run_append]
+  have hat : ∀ st ∈ roundHead e w.flows.length ++
+      roundTail (w.run (roundHead e w.flows.length)) e k conn sel ios, AtEnd e st := by
+    intro st h
+    rcases List.mem_append.mp h with h | h
+    · exact roundHead_atEnd _ _ st h
+    · exact roundTail_atEnd _ _ _ _ _ _ st h
+  -- this end
+  have hthis : AllNoticed e (w.round e k conn sel ios).flows := by
+    unfold World.round at hd ⊢
+    generalize hw2 : w.run (roundHead e w.flows.length) = w2 at hd ⊢
+    have hd2 : w2.died = none := alive_of_run hd
+    have a2 : AllNoticed e w2.flows := by
+      rw [← hw2] at hd2 ⊢
+      exact head_keeps_noticed e _ w hd2 (ha e)
+    unfold roundTail at hd ⊢
+    rw [← run_append] at hd ⊢
+    generalize hw3 : w2.run (List.replicate k (Step.deliver e conn)) = w3 at hd ⊢
+    have hd3 : w3.died = none := alive_of_run hd
+    have hlen : w3.flows.length = w2.flows.length := by
+      rw [← hw3] at hd3 ⊢
+      exact (run_other_end e (otherEnd e) (otherEnd_ne e) _ w2
+        (fun st hst => Or.inr (Or.inr (Or.inl ⟨conn, (List.mem_replicate.mp hst).2⟩))) hd3).1
+    apply pendInv_run e _ w3 _ hd
+    · intro i f p hf hp
+      by_cases hk : k = 0
+      · left
+        subst hk
+        simp only [List.replicate_zero, World.run, List.foldl_nil] at hw3
+        subst hw3
+        exact a2 f (List.mem_of_getElem? hf) p hp
+      · right
+        have hlt : i < w2.flows.length := by
+          rw [← hlen]; exact (List.getElem?_eq_some_iff.mp hf).1
+        have hi2 : w2.flows[i]? = some w2.flows[i] := List.getElem?_eq_getElem hlt
+        refine ⟨ios i, ?_⟩
+        rw [List.mem_flatMap]
+        refine ⟨(i, w2.flows[i]), mem_zip_range w2.flows i _ hi2, List.mem_replicate.mpr ⟨?_, rfl⟩⟩
+        unfold cbCount
+        have : (if 0 < k then 1 else 0) = 1 := by rw [if_pos (by omega)]
+        omega
+    · intro st hst
+      rw [List.mem_flatMap] at hst
+      obtain ⟨⟨i, f⟩, _, hm⟩ := hst
+      exact ⟨i, ios i, (List.mem_replicate.mp hm).2⟩
+  intro e'
+  by_cases he : e' = e
+  · subst he; exact hthis
+  · rw [hround] at hd ⊢
+    exact AllNoticed.of_same (run_other_end e e' he _ w hat hd) (ha e')
+
+/-- A handler just created by `onaccept_tcp` has nothing to notice. -/
+theorem fresh_noticed (c : Nat) : Noticed { sw := {}, mw := { chan := c }, sockFirst := true } := by
+  refine ⟨⟨⟨?_, ?_⟩, ?_⟩, ?_, ?_⟩ <;> intro h <;> cases h
+
+/-- What happens at a tunnel end between two `select` calls, and around it. -/
+inductive LoopEvent
+  | accept                                  -- the listener's callback: a captured connection
+  | pass (e : End) (k : Nat) (conn : ConnRes) (sel : Sel) (ios : Nat → CbIo)   -- one `runonce`
+  | checkFull (e : End)
+  | foreign (e : End) (f : Frame)           -- traffic of another flow kind
+  | appWrite (i : Nat) (b : Bytes) | appEof (i : Nat)
+  | dstWrite (i : Nat) (b : Bytes) | dstEof (i : Nat)
+
+def World.event (w : World) : LoopEvent → World
+  | .accept => w.step .accept
+  | .pass e k conn sel ios => w.round e k conn sel ios
+  | .checkFull e => w.step (.checkFull e)
+  | .foreign e f => w.step (.foreign e f)
+  | .appWrite i b => w.step (.appWrite i b)
+  | .appEof i => w.step (.appEof i)
+  | .dstWrite i b => w.step (.dstWrite i b)
+  | .dstEof i => w.step (.dstEof i)
+
+def World.events (w : World) (evs : List LoopEvent) : World := evs.foldl World.event w
+
+def GoodEvent : LoopEvent → Prop
+  | .foreign _ fr => isStreamCmd fr.cmd = false
+  | _ => True
+
+theorem env_same (w : World) (e' : End) (st : Step)
+    (hst : (∃ e, st = .checkFull e) ∨ (∃ e f, st = .foreign e f) ∨ (∃ i b, st = .appWrite i b) ∨
+      (∃ i, st = .appEof i) ∨ (∃ i b, st = .dstWrite i b) ∨ (∃ i, st = .dstEof i)) :
+    FlowsR (SameAt e') w.flows (w.stepRaw st).flows := by
+  rcases hst with ⟨e, rfl⟩ | ⟨e, f, rfl⟩ | ⟨i, b, rfl⟩ | ⟨i, rfl⟩ | ⟨i, b, rfl⟩ | ⟨i, rfl⟩
+  · cases e <;> exact flowsR_refl (sameAt_refl _) _
+  · cases e <;> exact flowsR_refl (sameAt_refl _) _
+  · simp only [World.stepRaw]
+    apply flowsR_modifyAt (sameAt_refl _)
+    intro g _
+    unfold SameAt
+    split <;> cases e' <;> rfl
+  · simp only [World.stepRaw]
+    apply flowsR_modifyAt (sameAt_refl _)
+    intro g _
+    unfold SameAt
+    cases e' <;> rfl
+  · simp only [World.stepRaw]
+    apply flowsR_modifyAt (sameAt_refl _)
+    intro g _
+    unfold SameAt
+    split <;> cases e' <;> rfl
+  · simp only [World.stepRaw]
+    apply flowsR_modifyAt (sameAt_refl _)
+    intro g _
+    unfold SameAt
+    cases e' <;> rfl
+
+theorem accept_keeps_noticed (w : World) (e' : End) (ha : AllNoticed e' w.flows) :
+    AllNoticed e' (w.stepRaw .accept).flows := by
+  simp only [World.stepRaw, World.accept]
+  split
+  · exact ha
+  next c ch _ =>
+    intro f hf p hp
+    simp only [List.mem_append, List.mem_singleton] at hf
+    rcases hf with hf | rfl
+    · exact ha f hf p hp
+    · cases e'
+      · simp only [handlerAt, Option.some.injEq] at hp
+        subst hp; exact fresh_noticed c
+      · simp only [handlerAt] at hp; cases hp
+
+theorem event_alive {w : World} {ev : LoopEvent} (h : (w.event ev).died = none) : w.died = none := by
+  cases ev with
+  | pass e k conn sel ios =>
+    simp only [World.event, World.round] at h
+    exact alive_of_run (alive_of_run h)
+  | _ => exact (step_died_none h).1
+
+theorem events_alive {w : World} {evs : List LoopEvent} (h : (w.events evs).died = none) : w.died = none := by
+  induction evs generalizing w with
+  | nil => exact h
+  | cons a rest ih =>
+    have : w.events (a :: rest) = (w.event a).events rest := by simp only [World.events, List.foldl_cons]
+    rw [this] at h
+    exact event_alive (ih h)
+
+theorem event_keeps_noticed (w : World) (ev : LoopEvent) (hd : (w.event ev).died = none)
+    (ha : ∀ e', AllNoticed e' w.flows) : ∀ e', AllNoticed e' (w.event ev).flows := by
+  cases ev with
+  | pass e k conn sel ios => exact round_keeps_noticed w e k conn sel ios hd ha
+  | accept =>
+    intro e'
+    simp only [World.event] at hd ⊢
+    rw [(step_died_none hd).2]
+    exact accept_keeps_noticed w e' (ha e')
+  | checkFull e =>
+    intro e'
+    simp only [World.event] at hd ⊢
+    rw [(step_died_none hd).2]
+    exact AllNoticed.of_same (env_same w e' _ (Or.inl ⟨e, rfl⟩)) (ha e')
+  | foreign e f =>
+    intro e'
+    simp only [World.event] at hd ⊢
+    rw [(step_died_none hd).2]
+    exact AllNoticed.of_same (env_same w e' _ (Or.inr (Or.inl ⟨e, f, rfl⟩))) (ha e')
+  | appWrite i b =>
+    intro e'
+    simp only [World.event] at hd ⊢
+    rw [(step_died_none hd).2]
+    exact AllNoticed.of_same (env_same w e' _ (Or.inr (Or.inr (Or.inl ⟨i, b, rfl⟩)))) (ha e')
+  | appEof i =>
+    intro e'
+    simp only [World.event] at hd ⊢
+    rw [(step_died_none hd).2]
+    exact AllNoticed.of_same (env_same w e' _ (Or.inr (Or.inr (Or.inr (Or.inl ⟨i, rfl⟩))))) (ha e')
+  | dstWrite i b =>
+    intro e'
+    simp only [World.event] at hd ⊢
+    rw [(step_died_none hd).2]
+    exact AllNoticed.of_same (env_same w e' _ (Or.inr (Or.inr (Or.inr (Or.inr (Or.inl ⟨i, b, rfl⟩)))))) (ha e')
+  | dstEof i =>
+    intro e'
+    simp only [World.event] at hd ⊢
+    rw [(step_died_none hd).2]
+    exact AllNoticed.of_same (env_same w e' _ (Or.inr (Or.inr (Or.inr (Or.inr (Or.inr ⟨i, rfl⟩)))))) (ha e')
+
+/-- **Between passes every handler has had its callback.**  For every history of the loop's own
+alphabet — connections accepted, endpoint activity, `check_fullness`, foreign traffic, and passes
+with ANY answer of `select` and any socket behaviour — that leaves both processes alive, every
+handler of either end is `Noticed`.  This discharges the hypothesis of
+`C02_pass_without_progress_is_quiet` for every state the real loop can be in between two passes. -/
+theorem C02_noticed_between_passes (w0 : World) (h0 : w0.flows = []) (evs : List LoopEvent)
+    (hd : (w0.events evs).died = none) : ∀ e', AllNoticed e' (w0.events evs).flows := by
+  have key : ∀ (evs : List LoopEvent) (w : World), (w.events evs).died = none →
+      (∀ e', AllNoticed e' w.flows) → ∀ e', AllNoticed e' (w.events evs).flows := by
+    intro evs
+    induction evs with
+    | nil => intro w _ ha; exact ha
+    | cons a rest ih =>
+      intro w hd ha
+      have hrun : w.events (a :: rest) = (w.event a).events rest := by simp only [World.events, List.foldl_cons]
+      rw [hrun] at hd ⊢
+      exact ih (w.event a) hd (event_keeps_noticed w a (events_alive hd) ha)
+  exact key evs w0 hd (fun e' f hf => by rw [h0] at hf; cases hf)
+
+theorem events_is_run (w : World) (evs : List LoopEvent) (hg : ∀ ev ∈ evs, GoodEvent ev) :
+    ∃ steps, (∀ st ∈ steps, GoodStep st) ∧ w.events evs = w.run steps := by
+  induction evs generalizing w with
+  | nil => exact ⟨[], fun _ h => (by cases h), rfl⟩
+  | cons a rest ih =>
+    have hrun : w.events (a :: rest) = (w.event a).events rest := by simp only [World.events, List.foldl_cons]
+    obtain ⟨s2, g2, r2⟩ := ih (w.event a) (fun ev hev => hg ev (List.mem_cons_of_mem _ hev))
+    have hone : ∃ s1, (∀ st ∈ s1, GoodStep st) ∧ w.event a = w.run s1 := by
+      cases a with
+      | pass e k conn sel ios =>
+        obtain ⟨s1, m1, r1, _⟩ := C02_round_is_run w e k conn sel ios
+        exact ⟨s1, fun st h => loopMove_good (m1 st h), r1⟩
+      | accept => exact ⟨[.accept], fun st h => (by simp only [List.mem_singleton] at h; subst h; trivial), rfl⟩
+      | checkFull e => exact ⟨[.checkFull e], fun st h => (by simp only [List.mem_singleton] at h; subst h; trivial), rfl⟩
+      | foreign e f =>
+        refine ⟨[.foreign e f], fun st h => ?_, rfl⟩
+        simp only [List.mem_singleton] at h; subst h
+        exact hg _ List.mem_cons_self
+      | appWrite i b => exact ⟨[.appWrite i b], fun st h => (by simp only [List.mem_singleton] at h; subst h; trivial), rfl⟩
+      | appEof i => exact ⟨[.appEof i], fun st h => (by simp only [List.mem_singleton] at h; subst h; trivial), rfl⟩
+      | dstWrite i b => exact ⟨[.dstWrite i b], fun st h => (by simp only [List.mem_singleton] at h; subst h; trivial), rfl⟩
+      | dstEof i => exact ⟨[.dstEof i], fun st h => (by simp only [List.mem_singleton] at h; subst h; trivial), rfl⟩
+    obtain ⟨s1, g1, r1⟩ := hone
+    refine ⟨s1 ++ s2, ?_, ?_⟩
+    · intro st h
+      rcases List.mem_append.mp h with h | h
+      · exact g1 st h
+      · exact g2 st h
+    · rw [hrun, r2, r1, run_append]
+
+/-- **The select loop, in its own terms.**  Take any history of the two loops: connections
+accepted, the endpoints writing and closing whenever they like, latency control, traffic of other
+flow kinds, and `runonce` passes at either end in any order with whatever `select` reported and
+whatever the sockets answered, faults included — with both processes alive at the end and the flow
+identifiers of the run distinct.  If now one pass at each end in the environment as it is (frames
+on their way arrive, sockets answer fully) does not lower the measure, then every endpoint still
+open has received exactly what the tunnel read from its peer and every close has reached the other
+endpoint's socket.  No hypothesis about handlers, queues or latency control is left: the loop's
+own history establishes them (`C02_noticed_between_passes`, `reach_flowSock`,
+`pass_idle_queue_empty`, `C09_drained_not_full`).  And by `C02_effective_passes_bounded` the loop
+gets there: passes that do lower the measure are at most `worldMu` many. -/
+theorem C02_loop_history_completes (w0 : World) (h0 : Fresh w0)
+    (hf : w0.cm.tooFull = false ∧ w0.sm.tooFull = false) (evs : List LoopEvent)
+    (hg : ∀ ev ∈ evs, GoodEvent ev)
+    (hn : (chans (w0.events evs)).Nodup) (hd : (w0.events evs).died = none)
+    (kc ks : Nat)
+    (hkc : (w0.events evs).sm.out ≠ [] → 0 < kc) (hks : (w0.events evs).cm.out ≠ [] → 0 < ks)
+    (hc : worldMu ((w0.events evs).roundAuto .client kc fullIo) = worldMu (w0.events evs))
+    (hs : worldMu ((w0.events evs).roundAuto .server ks fullIo) = worldMu (w0.events evs)) :
+    Quiet (w0.events evs) ∧
+    ∀ f ∈ (w0.events evs).flows,
+      (f.dst.sawShut = false → f.app.consumed = f.dst.delivered) ∧
+      (f.app.sawShut = false → f.dst.consumed = f.app.delivered) ∧
+      (f.app.eofIn = true → f.app.pending = [] → f.dst.sawShut = true) ∧
+      (f.dst.eofIn = true → f.dst.pending = [] → f.app.sawShut = true) := by
+  have hnot := C02_noticed_between_passes w0 h0.1 evs hd
+  obtain ⟨steps, hgood, hrun⟩ := events_is_run w0 evs hg
+  rw [hrun] at hn hd hkc hks hc hs hnot ⊢
+  have hfs := reach_flowSock w0 h0.1 steps
+  have hq1 := pass_idle_queue_empty (w0.run steps) .client kc hd hkc hc
+  have hq2 := pass_idle_queue_empty (w0.run steps) .server ks hd hks hs
+  have ht := C09_drained_not_full w0 hf steps hq2 hq1
+  have hq := C02_both_passes_idle_is_quiet (w0.run steps) kc ks hd hkc hks hfs
+    (fun f hfm e p hp => hnot e f hfm p hp) ht hc hs
+  refine ⟨hq, ?_⟩
+  intro f hfm
+  obtain ⟨_, a, b, c, d, _⟩ := C02_quiet_complete w0 h0 steps hgood hn hd hq f hfm
+  exact ⟨a, b, c, d⟩
+
+/-- A history in the loop's own alphabet that meets the hypotheses of `C02_loop_history_completes`:
+a connection is accepted, the application writes three bytes and closes, the destination closes;
+passes at both ends until none lowers the measure (five are enough here).  At the end both
+processes are alive, one more pass at either end leaves the measure as it is, and the three bytes
+have arrived. -/
+def demoHistory : List LoopEvent :=
+  [.accept, .appWrite 0 [1, 2, 3], .appEof 0, .dstEof 0] ++
+  (List.replicate 5 [LoopEvent.pass .client 9 .ok ⟨fun _ => true, fun _ => true, true⟩ (fun _ => fullIo),
+                     LoopEvent.pass .server 9 .ok ⟨fun _ => true, fun _ => true, true⟩ (fun _ => fullIo)]).flatten
+
+example :
+    let w : World := ({} : World).events demoHistory
+    w.died = none ∧ w.cm.out = [] ∧ w.sm.out = [] ∧
+    worldMu (w.roundAuto .client 0 fullIo) = worldMu w ∧ worldMu (w.roundAuto .server 0 fullIo) = worldMu w ∧
+    w.flows.map (fun f => (f.dst.delivered, f.dst.sawShut, f.app.sawShut)) = [([1, 2, 3], true, true)] := by
+  intro w
+  exact ⟨by decide +kernel, by decide +kernel, by decide +kernel, by decide +kernel, by decide +kernel,
+    by decide +kernel⟩
 
 end Sshuttle.Tunnel
